@@ -23,6 +23,8 @@ enum Case {
     OneBad { cid: Cid, n: usize },
     /// (c) length `n`: two different rejected bytes at every position pair p < q
     TwoBad { cid: Cid, n: usize },
+    /// a very long string (block sizes, thresholds): one valid pattern, a bad byte at chosen positions, two bad bytes
+    Huge { cid: Cid, n: usize },
 }
 
 /// Rejected bytes chosen around the table edges (anything accepted by the codec is removed).
@@ -100,12 +102,15 @@ fn gen(t: Tier, _seed: u64, emit: &mut dyn FnMut(Case)) {
                 emit(Case::TwoBad { cid, n });
             }
         }
+        for n in huge_lengths(cid.bits()) {
+            emit(Case::Huge { cid, n });
+        }
     }
 }
 
 fn run(c: &Case, out: &mut Out) {
     match c {
-        Case::Pairs { cid, .. } | Case::Short { cid, .. } | Case::Valid { cid, .. } | Case::OneBad { cid, .. } | Case::TwoBad { cid, .. } => {
+        Case::Pairs { cid, .. } | Case::Short { cid, .. } | Case::Valid { cid, .. } | Case::OneBad { cid, .. } | Case::TwoBad { cid, .. } | Case::Huge { cid, .. } => {
             dispatch!(*cid, run_g(c, out))
         }
     }
@@ -140,6 +145,38 @@ fn run_g<A: Sx>(c: &Case, out: &mut Out) {
                 let v: Vec<u8> = idx.iter().map(|&i| acc[i as usize]).collect();
                 one::<A>(&sp, &v, out);
             });
+        }
+        Case::Huge { n, .. } => {
+            let n = *n;
+            let acc = sp.accepted();
+            let rej = rejected(&sp);
+            let base: Vec<u8> = bg(n, acc.len(), 4, seed).iter().map(|&i| acc[i as usize]).collect();
+            one::<A>(&sp, &base, out);
+            let mut v = base.clone();
+            // bad bytes at the ends, in the middle and just before/after every power-of-two position
+            let mut pos: Vec<usize> = vec![0, 1, n / 2, n - 2, n - 1];
+            let mut p2 = 64;
+            while p2 < n {
+                pos.extend([p2 - 1, p2]);
+                p2 *= 2;
+            }
+            pos.retain(|p| *p < n);
+            pos.sort();
+            pos.dedup();
+            for (k, &p) in pos.iter().enumerate() {
+                let b = rej[k % rej.len()];
+                v[p] = b;
+                one::<A>(&sp, &v, out);
+                // a second, different bad byte later on must not be the one reported
+                let q = n - 1 - (k % 3);
+                if q > p {
+                    let keep = v[q];
+                    v[q] = rej[(k + 1) % rej.len()];
+                    one::<A>(&sp, &v, out);
+                    v[q] = keep;
+                }
+                v[p] = base[p];
+            }
         }
         Case::OneBad { n, .. } => {
             let acc = sp.accepted();
@@ -283,7 +320,13 @@ fn one<A: Sx>(sp: &Spec, v: &[u8], out: &mut Out) {
                 let mut c2b = Seq::<A>::new();
                 c2b.extend(list.iter().copied());
                 let c3 = Seq::<A>::from(&list);
-                for (nm, c) in [("FromIterator", &c1), ("Extend", &c2), ("extend", &c2b), ("From<&Vec>", &c3)] {
+                // iterators whose size_hint is not exact: lower bound 0 (filter) and 0 < lower < actual (chain of exact + filter)
+                let k = list.len() / 2;
+                let c4: Seq<A> = list.iter().copied().filter(|_| true).collect();
+                let c5: Seq<A> = list[..k].iter().copied().chain(list[k..].iter().copied().filter(|_| true)).collect();
+                let mut c6 = Seq::<A>::new();
+                c6.extend(list[..k].iter().copied().chain(list[k..].iter().copied().filter(|_| true)));
+                for (nm, c) in [("FromIterator", &c1), ("Extend", &c2), ("extend", &c2b), ("From<&Vec>", &c3), ("FromIterator(filter)", &c4), ("FromIterator(chain+filter)", &c5), ("extend(chain+filter)", &c6)] {
                     out.check(c == seq && c.len() == seq.len() && c.to_string() == shown, || {
                         (
                             format!("{n}/collect/{nm}-differs-from-parse"),
